@@ -102,6 +102,12 @@ def make_class(world, spec):
 
     def shutdown(self):
         self._call('shutdown')
+        if spec.get('leaves_on_shutdown'):
+            # a plugin that takes itself off the agent's list when it is shut down
+            try:
+                self.config.plugins.remove(self)
+            except (ValueError, AttributeError):
+                pass
 
     def resource(self):
         self._call('resource')
